@@ -37,13 +37,29 @@ def runOp (args impl : List String) : Option (String × String) := do
   let bodies := ((arg "body" "0").splitOn ",").map fun (x : String) => x.toInt?.getD 0
   let maxBody := bodies.foldl max 0
   let plain := ¬blocked ∧ arg "stallprogress" "0" = "0" ∧ arg "wedge" "0" = "0" ∧ (a.find? (·.1 = "sloweval")).isNone
+  -- file mode: a stage never starts before the stages in front of it have run their full durations (measured from
+  -- the first tick of stage 0, which is when triggering began, or later)
+  let stageDurs : List Int := ((arg "file" "").splitOn ";").map fun (st : String) => ((st.splitOn ":").getD 1 "0").toInt?.getD 0
+  let starts : List (Option Int) := ((out "stagestarts").splitOn ",").map String.toInt?
+  let stageEarly : Bool :=
+    match starts.head? with
+    | some (some s0) =>
+      let cum := stageDurs.foldl (fun (acc : List Int × Int) d => (acc.1 ++ [acc.2], acc.2 + d)) ([], 0) |>.1
+      (starts.zip cum).any fun (s, c) => match s with | some si => decide (si - s0 < c - 3) | none => false
+    | _ => false
   let spec : String :=
     if prop = "C01" ∨ prop = "C16" then
       if n "inflight" ≠ 0 ∨ blocked then "ok"
       else if res.take 2 ≠ truth then "FAIL result-counts-differ-from-executed-iterations"
       else if met.take 3 ≠ res then "FAIL metric-samples-differ-from-result"
       else if met.getD 3 0 ≠ 1 then "FAIL setup-metric-not-exactly-one-sample"
-      else "ok"
+      else
+        -- pushed to a gateway: once a push has been accepted, the last accepted push carries the final counts
+        let pushed := triple "pushed"
+        let gwMode := arg "pushgw" "-"
+        if (gwMode = "ok" ∨ gwMode = "fail1") ∧ pushed.length = 4 ∧ pushed.take 3 ≠ res then
+          "FAIL pushed-metrics-differ-from-the-result"
+        else "ok"
     else if prop = "C02" then
       let started := n "started"; let dropped := res.getD 2 0; let sum := n "sumrates"
       if started + dropped > sum then "FAIL more-started-plus-dropped-than-requested"
@@ -57,7 +73,9 @@ def runOp (args impl : List String) : Option (String × String) := do
       else if maxit > 0 ∧ arg "expectlimit" "0" = "1" ∧ n "started" ≠ maxit then "FAIL fewer-invocations-than-max-iterations"
       else "ok"
     else if prop = "C04" ∨ prop = "C07" then
-      if n "maxflight" > conc ∧ arg "mode" "constant" ≠ "file" then "FAIL more-than-concurrency-iterations-in-flight"
+      if prop = "C07" ∧ n "inflight" = 0 ∧ ¬blocked ∧ res.take 2 ≠ truth then
+        "FAIL iteration-outcome-differs-from-what-its-body-did"
+      else if n "maxflight" > conc ∧ arg "mode" "constant" ≠ "file" then "FAIL more-than-concurrency-iterations-in-flight"
       else if n "shared" ≠ 0 then "FAIL two-concurrent-iterations-shared-a-handle"
       else if n "setupHandleInIteration" > 0 then "FAIL iteration-was-handed-the-setup-handle"
       else if arg "expectfull" "0" = "1" ∧ n "maxflight" ≠ conc then "FAIL not-all-workers-usable"
@@ -88,9 +106,10 @@ def runOp (args impl : List String) : Option (String × String) := do
       else "ok"
     else if prop = "C09" then
       if out "cadence" ≠ "ok" then s!"FAIL evaluation-earlier-than-one-per-interval-{out "cadence"}"
+      else if stageEarly then "FAIL stage-of-a-config-file-ticks-before-its-scheduled-start"
       else if an "intervalms" "0" > 0 ∧ n "evals" > 1 + n "ret" / an "intervalms" "0" then "FAIL more-evaluations-than-one-plus-elapsed-over-interval"
       else if n "evals" < 1 ∧ arg "mode" "constant" ≠ "users" ∧ arg "mode" "constant" ≠ "file" ∧ ¬setupFailed then "FAIL no-immediate-evaluation"
-      else if n "started" + res.getD 2 0 > n "sumrates" then "FAIL more-load-than-the-rate-values"
+      else if arg "mode" "constant" ≠ "file" ∧ arg "mode" "constant" ≠ "users" ∧ n "started" + res.getD 2 0 > n "sumrates" then "FAIL more-load-than-the-rate-values"
       else "ok"
     else if prop = "C18" then
       if n "progressAfter" ≠ 0 then "FAIL progress-function-invoked-or-still-executing-after-the-run-stopped-its-runner"
@@ -100,6 +119,7 @@ def runOp (args impl : List String) : Option (String × String) := do
       if n "envBad" ≠ 0 then "FAIL stage-parameters-not-in-environment-while-triggering"
       else if out "envAfter" ≠ "clean" then "FAIL stage-parameters-remain-set-after-the-run"
       else if n "stageOrderBad" ≠ 0 then "FAIL stages-not-sequential"
+      else if stageEarly then "FAIL stage-started-before-the-previous-stages-had-run-their-durations"
       else "ok"
     else "ok"
   pure ("-", spec)
